@@ -24,7 +24,7 @@ def make_config(rng, n, order):
     """n jobs; blockers chosen among alphabetically earlier names, but the jobs are *listed* in `order`
     (forward, reversed or shuffled) so that a dependent can precede its blocker in the file."""
     ns = [chr(97 + i) for i in range(n)]
-    deps = {x: set(rng.sample([y for y in ns if y < x], rng.randint(0, min(2, sum(1 for y in ns if y < x))))) for x in ns}
+    deps = {x: set(rng.sample([y for y in ns if y < x], rng.randint(0, min(3, sum(1 for y in ns if y < x))))) for x in ns}
     listing = list(ns)
     if order == "reversed":
         listing.reverse()
@@ -86,8 +86,8 @@ def run_closure(S, case):
 
 
 def cases_closure(tier, rng):
-    for i in range(90 if tier == "quick" else 1500):
-        yield {"seed": rng.randint(0, 10**9), "n": rng.randint(1, 7), "order": ("forward", "reversed", "shuffled")[i % 3], "p": rng.choice([0.0, 0.2, 0.5])}
+    for i in range(600 if tier == "quick" else 6000):
+        yield {"seed": rng.randint(0, 10**9), "n": rng.randint(1, 7), "order": ("forward", "reversed", "shuffled", "reversed")[i % 4], "p": rng.choice([0.0, 0.15, 0.3, 0.5])}
 
 
 def run_prepare(S, case):
